@@ -1,6 +1,7 @@
 package main
 
 import (
+	"go/token"
 	"fmt"
 	"go/types"
 	"sort"
@@ -477,4 +478,34 @@ func (g *Global) ifaceContract(recvT types.Type, m *types.Func) (string, *FuncCo
 		}
 	}
 	return key, nil
+}
+
+// fieldFuncContract: the (assumed) contract of a function value loaded from a struct field.
+func (g *Global) fieldFuncContract(v ssa.Value) (string, *FuncContract) {
+	u, ok := v.(*ssa.UnOp)
+	if !ok || u.Op != token.MUL {
+		return "", nil
+	}
+	fa, ok := u.X.(*ssa.FieldAddr)
+	if !ok {
+		return "", nil
+	}
+	pt, ok := fa.X.Type().Underlying().(*types.Pointer)
+	if !ok {
+		return "", nil
+	}
+	n, ok := pt.Elem().(*types.Named)
+	if !ok || n.Obj().Pkg() == nil {
+		return "", nil
+	}
+	stru, ok := n.Underlying().(*types.Struct)
+	if !ok {
+		return "", nil
+	}
+	key := n.Obj().Pkg().Path() + "." + n.Obj().Name() + "." + stru.Field(fa.Field).Name()
+	if con := g.cs.Funcs[key]; con != nil {
+		con.Assumed = true
+		return key, con
+	}
+	return "", nil
 }
